@@ -108,6 +108,16 @@ func (r *Ref) Fold(resp *Resp) {
 	}
 }
 
+// Register: the client was told the coordinator of a group; it registers that broker (client.registerBroker: a new id is
+// added, a known id with another address is replaced). A listed broker keeps being required, an unlisted one is allowed.
+func (r *Ref) Register(b Brk) {
+	if _, ok := r.Must[b.ID]; ok {
+		r.Must[b.ID] = b.Addr
+		return
+	}
+	r.May[b.ID] = b.Addr
+}
+
 // ---------------------------------------------------------------------------------------------
 // observations
 
